@@ -135,6 +135,9 @@ type c07Op struct {
 
 type c07Case struct {
 	Ops []c07Op `json:"ops"`
+	// NoNorm: user names are not normalised (disable_username_normalization):
+	// the upper-case spelling is then a DIFFERENT identity, unknown to the directory
+	NoNorm bool `json:"no_norm"`
 }
 
 var c07Users = []string{"una", "dos"}
@@ -166,7 +169,7 @@ func c07Gen(t *rapid.T) c07Case {
 			op.On = rapid.Bool().Draw(t, "on")
 		default:
 			op.Kind = "tamper"
-			op.Tamper = rapid.SampledFrom([]string{"swap", "garbage", "foreign", "extend"}).Draw(t, "tamper")
+			op.Tamper = rapid.SampledFrom([]string{"swap", "garbage", "foreign", "extend", "copy-to-case-variant"}).Draw(t, "tamper")
 			op.Store = rapid.SampledFrom([]string{"primary", "cache"}).Draw(t, "store")
 		}
 		c.Ops = append(c.Ops, op)
@@ -196,7 +199,25 @@ func c07Gen(t *rapid.T) c07Case {
 		}
 		return nil
 	}
-	switch rapid.IntRange(0, 7).Draw(t, "motif") {
+	c.NoNorm = rapid.IntRange(0, 3).Draw(t, "nonorm") == 0
+	switch rapid.IntRange(0, 9).Draw(t, "motif") {
+	case 6: // logins during an outage do not extend the life of the directory-confirmed record
+		c.Ops = append(c.Ops, up...)
+		c.Ops = append(c.Ops, c07Op{Kind: "login", User: u, Pw: "current"})
+		c.Ops = append(c.Ops, viaCache()...)
+		c.Ops = append(c.Ops, outageIfCache()...)
+		c.Ops = append(c.Ops, down()...)
+		c.Ops = append(c.Ops, c07Op{Kind: "age", User: u, Hours: 50, Store: store}, c07Op{Kind: "login", User: u, Pw: "current"},
+			c07Op{Kind: "age", User: u, Hours: 50, Store: store}, c07Op{Kind: "login", User: u, Pw: "current"})
+	case 7: // a validly signed record filed under a name that differs only by case
+		c.NoNorm = true
+		c.Ops = append(c.Ops, up...)
+		c.Ops = append(c.Ops, c07Op{Kind: "login", User: u, Pw: "current"})
+		c.Ops = append(c.Ops, viaCache()...)
+		c.Ops = append(c.Ops, c07Op{Kind: "tamper", User: u, Tamper: "copy-to-case-variant", Store: store})
+		c.Ops = append(c.Ops, outageIfCache()...)
+		c.Ops = append(c.Ops, down()...)
+		c.Ops = append(c.Ops, c07Op{Kind: "login", User: u, Pw: "current", Case: true}, c07Op{Kind: "login", User: u, Pw: "current"})
 	case 0: // eviction must reach the store that later decides
 		c.Ops = append(c.Ops, up...)
 		c.Ops = append(c.Ops, c07Op{Kind: "login", User: u, Pw: "current"})
@@ -255,7 +276,7 @@ func c07Check(c c07Case) *vResult {
 	res := &vResult{}
 	c07StartServers()
 	dir := c07Shared.dir
-	w := vNewWorld(vWorldOpts{WebUIBackends: []string{"password"}, CertBackends: []string{"password"}})
+	w := vNewWorld(vWorldOpts{WebUIBackends: []string{"password"}, CertBackends: []string{"password"}, DisableNormalization: c.NoNorm})
 	defer w.Close()
 	st := w.state
 	auth, err := kmldap.New(c07Shared.urls, []string{"uid=%s,ou=people,dc=verif"}, 1, c07Shared.roots, st, logger)
@@ -382,6 +403,13 @@ func c07Check(c c07Case) *vResult {
 				forged := vSignJWT(vKey("rsa2048", "foreign"), claims)
 				db.Exec("insert or replace into expiring_signed_user_data(username, type, jws_data, expiration_epoch, update_epoch) values(?,1,?,?,?)", u, forged, time.Now().Unix()+3600, time.Now().Unix())
 				m[u].exists, m[u].valid = true, false
+			case "copy-to-case-variant":
+				// the user's validly signed row, byte for byte, filed under the upper-case spelling
+				var ju string
+				var exp, upd int64
+				if db.QueryRow("select jws_data, expiration_epoch, update_epoch from expiring_signed_user_data where username = ? and type = 1", u).Scan(&ju, &exp, &upd) == nil {
+					db.Exec("insert or replace into expiring_signed_user_data(username, type, jws_data, expiration_epoch, update_epoch) values(?,1,?,?,?)", strings.ToUpper(u), ju, exp, upd)
+				}
 			case "extend":
 				// only the unsigned column is extended
 				db.Exec("update expiring_signed_user_data set expiration_epoch = ? where username = ? and type = 1", time.Now().Unix()+7*24*3600, u)
@@ -416,6 +444,19 @@ func c07Check(c c07Case) *vResult {
 					answering = s
 					break
 				}
+			}
+			if c.NoNorm && op.Case {
+				// a different identity: the directory does not know it and no record
+				// was ever signed for it
+				res.label("case-variant-identity-login")
+				if answering < 0 {
+					offlineLogin = true
+				}
+				if accepted {
+					res.violate("case-variant-identity-accepted", "op %d: names are not normalised; %q is not %q, the directory does not know it and no record is signed for it, but it logged in with %s's password (servers answering: %v; history %s)", i, typed, u, u, answering >= 0, shape)
+					return res
+				}
+				continue
 			}
 			read := primary
 			if outage {
@@ -465,6 +506,6 @@ func c07Check(c c07Case) *vResult {
 
 func TestVerifC07Directory(t *testing.T) {
 	vRunRapid(t,
-		"rapid: histories (3-14 ops, often ending with every server down and logins) over {login (current / old / wrong / empty password, upper-case name), directory server 0/1 up / connection dropped / answering busy, password change, cached record reaching its expiry (primary or cache), synchronisation, primary-store outage on/off, tampering with the stored row (swap users' records, garbage, record forged with a foreign key, unsigned expiry column extended) in primary or cache} for two users, against real LDAPS servers and the real sqlite stores; non-trivial = at least one login while no server answers; distinct = history shape",
+		"rapid: histories (3-14 ops, often ending with every server down and logins) over {login (current / old / wrong / empty password, upper-case name), directory server 0/1 up / connection dropped / answering busy, password change, cached record reaching its expiry (primary or cache), synchronisation, primary-store outage on/off, tampering with the stored row (swap users' records, garbage, record forged with a foreign key, unsigned expiry column extended, valid row copied under the upper-case spelling) in primary or cache} for two users, with and without user name normalisation, against real LDAPS servers and the real sqlite stores; non-trivial = at least one login while no server answers; distinct = history shape",
 		c07Gen, c07Check)
 }
